@@ -48,13 +48,18 @@ struct Scn {
     inband_fti: bool,
     /// the application calls cleanup() around every push (a timer): housekeeping must not change what is delivered
     cleanup: bool,
+    /// seconds over which the (then multi-packet) FDT instances are emitted and received - a paced or low-bitrate
+    /// sender; every packet is stamped with its own sending time
+    fdt_spread: f64,
 }
 
-fn fdt_packets(tsi: u64, inst: &Inst, sct: bool, hi_only: bool, data_len: usize, md5: &str, e: usize) -> Vec<Vec<u8>> {
+fn fdt_packets(tsi: u64, inst: &Inst, sct: bool, hi_only: bool, data_len: usize, md5: &str, e: usize, spread: f64) -> Vec<(f64, Vec<u8>)> {
     let expires_ntp = (BASE as i64 + inst.expires) as u64 + NTP_UNIX_OFFSET;
     let xml = format!(
         "<?xml version=\"1.0\" encoding=\"UTF-8\"?>\n<FDT-Instance xmlns=\"urn:IETF:metadata:2005:FLUTE:FDT\" Expires=\"{}\" FEC-OTI-FEC-Encoding-ID=\"0\" FEC-OTI-Maximum-Source-Block-Length=\"64\" FEC-OTI-Encoding-Symbol-Length=\"{}\"><File TOI=\"{}\" Content-Location=\"file:///x/{}.bin\" Content-Length=\"{}\" Transfer-Length=\"{}\" Content-MD5=\"{}\"/></FDT-Instance>",
         expires_ntp, e, if inst.lists { 5 } else { 6 }, if inst.lists { "expiry" } else { "other" }, data_len, data_len, md5);
+    // a slowly sent instance is made of several packets
+    let xml = if spread > 0.0 { format!("{}{}", xml, " ".repeat(1500)) } else { xml };
     let x = xml.as_bytes();
     let fe = 600usize;
     let k = x.len().div_ceil(fe);
@@ -62,14 +67,15 @@ fn fdt_packets(tsi: u64, inst: &Inst, sct: bool, hi_only: bool, data_len: usize,
     let mut out = vec![];
     for esi in 0..k {
         let mut exts = vec![wire::ext_fdt(2, inst.id)];
+        let sent_at = inst.ts_emit + if k > 1 { spread * esi as f64 / (k - 1) as f64 } else { 0.0 };
         if sct {
-            let us = ((BASE as f64 + inst.ts_emit) * 1e6) as u64;
+            let us = ((BASE as f64 + sent_at) * 1e6) as u64;
             let (hi, lo) = wire::unix_us_to_ntp(us);
             exts.push(wire::ext_time(&Sct { hi: Some(hi), lo: if hi_only { None } else { Some(lo) }, ert: None, slc: None }, 0));
         }
         exts.push(wire::ext_fti(&fti));
         let l = wire::enc_lct(tsi, 0, 0);
-        out.push(wire::encode(&l, &exts, &wire::payload_id(0, 0, esi as u32, 0, 8), &x[esi * fe..((esi + 1) * fe).min(x.len())]));
+        out.push((sent_at, wire::encode(&l, &exts, &wire::payload_id(0, 0, esi as u32, 0, 8), &x[esi * fe..((esi + 1) * fe).min(x.len())])));
     }
     out
 }
@@ -98,8 +104,8 @@ fn run(s: &Scn, skew: f64, data: &[u8]) -> Result<Outcome, util::PanicInfo> {
     // (receiver instant, packet)
     let mut timeline: Vec<(f64, Vec<u8>)> = vec![];
     for inst in &s.insts {
-        for (n, p) in fdt_packets(tsi, inst, s.sct && !inst.no_sct, s.sct_hi_only, data.len(), &md5, e).into_iter().enumerate() {
-            timeline.push((inst.ts_emit + s.transit + skew + n as f64 * 1e-4, p));
+        for (n, (sent_at, p)) in fdt_packets(tsi, inst, s.sct && !inst.no_sct, s.sct_hi_only, data.len(), &md5, e, s.fdt_spread).into_iter().enumerate() {
+            timeline.push((sent_at + s.transit + skew + n as f64 * 1e-4, p));
         }
     }
     for (n, p) in objp.into_iter().enumerate() {
@@ -143,7 +149,7 @@ fn expected(s: &Scn, skew: f64) -> bool {
     // candidate start instants: the object's first packet (instances complete before it), or the
     // completion of an instance arriving after the object
     for i in arrivals.iter().filter(|i| i.lists) {
-        let tr_fdt = i.ts_emit + s.transit + skew;
+        let tr_fdt = i.ts_emit + s.fdt_spread + s.transit + skew;
         // the instance itself must be unexpired when it completes
         if est(i, tr_fdt) > i.expires as f64 {
             continue;
@@ -235,7 +241,12 @@ fn main() {
                                         _ => {}
                                     }
                                     for cleanup in [false, true] {
-                                        scns.push(Scn { insts: insts.clone(), ts_obj, object_first, sct, sct_hi_only, check, transit, inband_fti, cleanup });
+                                        scns.push(Scn { insts: insts.clone(), ts_obj, object_first, sct, sct_hi_only, check, transit, inband_fti, cleanup, fdt_spread: 0.0 });
+                                    }
+                                    // the single-instance, FDT-first scenarios also with an FDT of several packets received over
+                                    // 8 seconds (it is complete well before the object starts)
+                                    if variant == 0 && !object_first && ts_obj_rel > pub_t + 8.0 + 1.0 {
+                                        scns.push(Scn { insts: insts.clone(), ts_obj, object_first, sct, sct_hi_only, check, transit, inband_fti, cleanup: false, fdt_spread: 8.0 });
                                     }
                                 }
                             }
@@ -280,7 +291,7 @@ fn main() {
                 any |= !o.writers.is_empty() || o.fdt_callbacks > 0;
                 let delivered = o.writers.iter().any(|w| w.0.ends_with("C"));
                 let want = expected(s, skew);
-                let f = |v: Violation| v.with("sct", s.sct).with("sct_hi_only", s.sct_hi_only).with("cleanup_calls", s.cleanup).with("check", s.check).with("object_first", s.object_first).with("instances", s.insts.len() as u64).with("an_instance_without_sct", s.insts.iter().any(|i| i.no_sct)).with("skew_zero", skew == 0.0).with("skew_sign", if skew < 0.0 { "neg" } else { "pos" }).with("skew_abs_gt_1day", skew.abs() > 86400.0);
+                let f = |v: Violation| v.with("sct", s.sct).with("sct_hi_only", s.sct_hi_only).with("cleanup_calls", s.cleanup).with("fdt_received_over_seconds", s.fdt_spread > 0.0).with("check", s.check).with("object_first", s.object_first).with("instances", s.insts.len() as u64).with("an_instance_without_sct", s.insts.iter().any(|i| i.no_sct)).with("skew_zero", skew == 0.0).with("skew_sign", if skew < 0.0 { "neg" } else { "pos" }).with("skew_abs_gt_1day", skew.abs() > 86400.0);
                 if delivered != want {
                     cr.violations.push(f(Violation::new(if want { "valid_fdt_but_not_delivered" } else { "delivered_through_expired_fdt" }, format!(
                         "receiver skew {} s: object {} although the reference says {} (writers {:?}); scenario {:?}", skew, if delivered { "delivered" } else { "not delivered" }, if want { "deliver" } else { "do not deliver" }, o.writers, s)))
